@@ -287,7 +287,10 @@ pub fn gen_logfuzz(r: &mut Rng, _cfg: &RunCfg) -> Op {
 	if r.chance(1, 5) {
 		return Op::StashLogs
 	}
-	let n = r.range(1, 3);
+	// one mutation per image: the oracle's bookkeeping of "first invalid record" is exact for a
+	// single damage; combinations add little (24 of 26 reported crash-consistency bugs needed
+	// three or fewer operations) and make attribution ambiguous
+	let n = 1;
 	let mut muts = Vec::new();
 	for _ in 0..n {
 		let file_sel = r.below(8) as u32;
